@@ -4,7 +4,7 @@
 
 use std::collections::{VecDeque, HashSet, HashMap};
 use std::sync::{Arc, RwLock};
-use std::time::{Duration, Instant};
+use std::time::{Duration, Instant, SystemTime, UNIX_EPOCH};
 use std::thread;
 use rand::seq::SliceRandom;
 
@@ -2135,6 +2135,17 @@ impl StorageEngine {
     
     pub fn pexpire(&self, db: DatabaseIndex, key: &[u8], millis: u64) -> Result<bool> {
         self.expire(db, key, Duration::from_millis(millis))
+    }
+    
+    /// Set the deadline of a key as a Unix time in milliseconds. A deadline that has passed
+    /// deletes the key (Redis standard behavior)
+    pub fn pexpire_at(&self, db: DatabaseIndex, key: &[u8], unix_millis: i64) -> Result<bool> {
+        let now = SystemTime::now().duration_since(UNIX_EPOCH).unwrap_or_default().as_millis() as i64;
+        if unix_millis <= now {
+            self.delete(db, key)
+        } else {
+            self.pexpire(db, key, (unix_millis - now) as u64)
+        }
     }
     
     pub fn pttl(&self, db: DatabaseIndex, key: &[u8]) -> Result<i64> {
